@@ -482,12 +482,29 @@ class Update(object):
         if sc['corrupt']:
             new_text = new_text + '[program:broken]\nnumprocs=zz\ncommand=/sim/ok/x\n'
         replay = {'scenario': sc, 'old_file': old_text, 'new_file': new_text, 'seed': seed}
+        mid_text = None
+        if sc.get('two_step'):
+            # the operator rereads an intermediate version first (added programs with AUTO logs),
+            # edits again (they now name a log file), then runs update
+            mid_text = new_text
+            _, new2 = c15_driver.scenario_files(sc, self.wd, added_logs=True)
+            new_text = self.base + c15_gen.render(new2)
+            replay.update(new_file=new_text, edit_sequence=[old_text, mid_text, new_text],
+                          steps='boot(old), write(mid), reread, write(new), update')
         run = c15_driver.UpdateRun(self.wd, sc, random.Random(seed))
         self.n += 1
         try:
             run.boot(old_text)
             missed = run.prepare()
             self.recipe_miss += len(missed)
+            if mid_text is not None:
+                run.write(mid_text)
+                try:
+                    run.call('reloadConfig', ())
+                except Exception:
+                    pass
+                del run.log[:]
+                run.after_reload = run.after_reload_enc = None
             s0 = run.snapshot()
             run.write(new_text)
             out = run.update(sc['args'])
@@ -500,6 +517,20 @@ class Update(object):
                 cinfo = repr(e)
         finally:
             run.close()
+        # the file as it is now, by a reader of its own (after the simulated kernel is uninstalled)
+        fresh = None
+        if not sc['corrupt']:
+            try:
+                from supervisor.options import ServerOptions
+                fo = ServerOptions()
+                fo.configfile = run.path
+                fo.process_config(do_usage=False)
+                fresh = dict((c.name, R.encode_group(c, 0)) for c in fo.process_group_configs)
+            except Exception as e:
+                replay.update(kind='generator produced a new file the reader rejects', error=repr(e))
+                self.violation(replay, nofail=True)
+                return
+        self.fresh = fresh
         if out[0] == 'hung':
             replay.update(kind='update did not finish: a deferred RPC never completed', log=repr(run.log))
             self.violation(replay)
@@ -676,6 +707,15 @@ class Update(object):
             if sel(n) and n in g1:
                 replay.update(kind='a removed group is still active after update', group=n)
                 self.violation(replay)
+        # the options a selected changed/added group now runs with are those the file has now
+        for n in changed + added:
+            b = g1.get(n)
+            if sel(n) and b is not None and self.fresh is not None and n in self.fresh:
+                d = self.R.describes(self.fresh[n], self.R.encode_group(b['cfg'], 0))
+                if d:
+                    replay.update(kind='after update a changed/added group does not have the options of the file',
+                                  group=n, differences=d)
+                    self.violation(replay)
         for n in changed + added:
             if sel(n):
                 b = g1.get(n)
